@@ -22,6 +22,7 @@ import (
 	"fmt"
 	"go/ast"
 	"go/format"
+	"go/printer"
 	"go/token"
 	"go/types"
 	"os"
@@ -174,6 +175,10 @@ func writeFile(fset *token.FileSet, f *ast.File, name string) {
 	}
 	defer out.Close()
 	if err := format.Node(out, fset, f); err != nil {
+		if dbg, e2 := os.Create(name + ".broken"); e2 == nil {
+			_ = printer.Fprint(dbg, fset, f)
+			dbg.Close()
+		}
 		die("format %s: %v", name, err)
 	}
 }
@@ -459,7 +464,7 @@ func rewriteFile(p *packages.Package, f *ast.File, simrtPath string) bool {
 			return true
 		}
 		switch st.(type) {
-		case *ast.BlockStmt, *ast.LabeledStmt:
+		case *ast.BlockStmt, *ast.LabeledStmt, *ast.CaseClause, *ast.CommClause:
 			return true
 		}
 		if _, ok := c.Parent().(*ast.BlockStmt); !ok {
@@ -477,7 +482,17 @@ func rewriteFile(p *packages.Package, f *ast.File, simrtPath string) bool {
 			if s.Init != nil {
 				probe.(*ast.BlockStmt).List = append(probe.(*ast.BlockStmt).List, s.Init)
 			}
-		case *ast.ForStmt, *ast.RangeStmt, *ast.SwitchStmt, *ast.TypeSwitchStmt, *ast.SelectStmt:
+		case *ast.SwitchStmt:
+			// only init/tag; the clauses' statements are handled on their own
+			b := &ast.BlockStmt{}
+			if s.Tag != nil {
+				b.List = append(b.List, &ast.ExprStmt{X: s.Tag})
+			}
+			if s.Init != nil {
+				b.List = append(b.List, s.Init)
+			}
+			probe = b
+		case *ast.ForStmt, *ast.RangeStmt, *ast.TypeSwitchStmt, *ast.SelectStmt:
 			return true
 		}
 		if pos, what := r2Site(probe); pos != token.NoPos {
